@@ -476,8 +476,12 @@ type c15NamedBytes []byte
 type c15NamedBool bool
 type c15Stringer struct{ n int }
 
-func (s *c15Stringer) String() string { panic("c15: String() must not be called by the kernel formatter") }
-func (s *c15Stringer) Error() string  { panic("c15: Error() must not be called by the kernel formatter") }
+func (s *c15Stringer) String() string {
+	panic("c15: String() must not be called by the kernel formatter")
+}
+func (s *c15Stringer) Error() string {
+	panic("c15: Error() must not be called by the kernel formatter")
+}
 
 // c15WrongArg returns an argument whose type the verb does not accept
 // (built-in or composite types only: whether a *named* integer type is
